@@ -33,5 +33,7 @@ async fn main() -> io::Result<()> {
         writer.write_record(&header, record.as_ref()).await?;
     }
 
+    writer.shutdown().await?;
+
     Ok(())
 }
